@@ -94,6 +94,10 @@ macro_rules! collect {
                             if a != b1 || a != b2 {
                                 k = format!("into_owned changes the text of a {} event: {a:?} / {b1:?} / {b2:?}", kind(&ev));
                             }
+                            // the decoder carried by the event is the reader's: without references in the payload, unescape() is decode()
+                            if !bytes.contains(&b'&') && a != decoded {
+                                k = format!("the decoder carried by a {} event disagrees with the reader's: {a:?} / {decoded:?}", kind(&ev));
+                            }
                         }
                         Event::CData(c) => {
                             let a = c.clone().escape().ok().and_then(|t| t.unescape().ok().map(|x| x.into_owned()));
@@ -284,8 +288,14 @@ pub fn record(out: &str, seed: u64, n: usize) -> Value {
             let zw = if !moji && safe(enc, '\u{feff}') && rng.gen_bool(0.5) { "\u{feff}" } else { "" };
             let (pa, pb, pt, pc, pd, pe, pf) = (format!("{zw}{}", gen(&mut rng, 4)), gen(&mut rng, 2), format!("{zw}{}", gen(&mut rng, 6)).trim_end().to_string() + "x",
                 gen(&mut rng, 3), format!("{zw}{}", gen(&mut rng, 4)), gen(&mut rng, 2), gen(&mut rng, 3) + "y");
-            let body = format!("<r{n} k=\"{}\" j='{}'>{}<!--{}--><![CDATA[{}]]><?p {}?><e{n}/>{}</r{n}>", pa, pb, pt, pc, pd, pe, pf, n = name);
+            // (a DOCTYPE with characters of the document in its internal subset, in two runs out of three)
+            let pg = gen(&mut rng, 3);
+            let doctype = if j % 3 != 0 && j % 5 != 4 { format!("<!DOCTYPE r{n} [<!ENTITY e \"{}\">]>", pg, n = name) } else { String::new() };
+            let body = format!("{doctype}<r{n} k=\"{}\" j='{}'>{}<!--{}--><![CDATA[{}]]><?p {}?><e{n}/>{}</r{n}>", pa, pb, pt, pc, pd, pe, pf, n = name);
             let mut truth: Vec<String> = vec![format!("r{n} k=\"{}\" j='{}'", pa, pb, n = name), pt.clone(), pc.clone(), pd.clone(), format!("p {}", pe), format!("e{n}", n = name), pf.clone(), format!("r{n}", n = name)];
+            if !doctype.is_empty() {
+                truth.insert(0, format!("r{n} [<!ENTITY e \"{}\">]", pg, n = name));
+            }
             let decl = if with_decl { format!("<?xml version=\"1.0\" encoding=\"{}\"?>", enc.name()) } else { String::new() };
             if with_decl {
                 truth.insert(0, String::new()); // the declaration's own text is not compared
